@@ -38,6 +38,7 @@ Definition parse_lines (which : Z) (lines : list str) : option val :=
 Definition parse_text (which : Z) (text : str) : val :=
   if which =? 2 then vrecs (bytes_parser text)
   else if which =? 7 then vrecs (bytes_parser_fixed text)
+  else if which =? 9 then vrecs (bytes_parser_fixed_cr text)          (* bytes parser, variants C06-1 + C06-8b *)
   else match parse_lines which (py_splitlines text) with Some v => v | None => VN end.
 
 Definition vopt (o : option str) : val := match o with Some s => VS s | None => VN end.
@@ -73,6 +74,7 @@ Definition run_case (c : case) : val :=
       let wn := Z.to_nat w in
       if fmt =? 0 then parse_text 2 (fasta_write_w wn recs)
       else if fmt =? 4 then parse_text 7 (fasta_write_w wn recs)
+      else if fmt =? 5 then parse_text 9 (fasta_write_w wn recs)
       else if fmt =? 1 then parse_text 5 (phylip_write wn recs)
       else if fmt =? 2 then parse_text 6 (paml_write wn recs)
       else parse_text 3 (gde_write wn recs)
